@@ -103,7 +103,15 @@ class FakeTransport(asyncio.Transport):
     # -- harness side
     def attach(self, protocol):
         self.protocol = protocol
-        protocol.connection_made(self)
+        try:
+            protocol.connection_made(self)
+        except Exception as e:  # noqa: BLE001 - as asyncio: connection_made runs as a loop callback; an exception
+            # escaping it is reported to the loop's exception handler and the transport goes on reading
+            self.connection_made_error = e
+            try:
+                self.loop.call_exception_handler({"message": "exception in connection_made", "exception": e, "protocol": protocol})
+            except Exception:  # noqa: BLE001
+                pass
 
     def feed(self, data: bytes):
         """Deliver data as asyncio would; an exception escaping data_received is
@@ -290,7 +298,15 @@ class FakeTcp(asyncio.Transport):
     # -- harness side: deliver bytes to the protocol like a selector transport
     def attach(self, protocol):
         self.protocol = protocol
-        protocol.connection_made(self)
+        try:
+            protocol.connection_made(self)
+        except Exception as e:  # noqa: BLE001 - as asyncio: connection_made runs as a loop callback; an exception
+            # escaping it is reported to the loop's exception handler and the transport goes on reading
+            self.connection_made_error = e
+            try:
+                self.loop.call_exception_handler({"message": "exception in connection_made", "exception": e, "protocol": protocol})
+            except Exception:  # noqa: BLE001
+                pass
 
     def feed(self, data: bytes) -> bool:
         if self.lost or self.closing or not data:
